@@ -380,6 +380,86 @@ pub fn run(ctx: &mut Ctx) -> (&'static str, String, bool) {
     if !miri && (min_off >= 1020 || growths == 0) {
         ctx.inconclusive(format!("long sessions never drove the receive buffer's spare capacity below one maximum frame (min {min_off}, growth events {growths}): the session-length half was not exercised"));
     }
+    // ---- other calls on the same connection between reads (handshake, write) must not disturb what is buffered -----
+    if !miri {
+        use crate::transport::{poll_to_end, Conn, Handle, ReadResult};
+        let n = ctx.tier.pick(400u64, 8_000u64);
+        let base = ctx.rng.fork(5151);
+        let parts: Vec<Part> = (0..n)
+            .into_par_iter()
+            .map(|i| {
+                let rt = runtime();
+                let _g = rt.enter();
+                let mut p = Part::new();
+                let mut r = base.fork(i);
+                let compressed = i % 2 == 0;
+                let target = 60 + r.usize_below(600);
+                let stream = make_stream(c, &mut r, compressed, target, i % 3 == 0);
+                let (expected, _) = expected_results(&stream, compressed);
+                let seg = [0usize, 7, 13, 64, 1][r.usize_below(5)];
+                let at = r.usize_below(expected.len().max(1));
+                let use_write = r.chance(1, 3);
+                for which in IMPLS {
+                    p.evaluations += 1;
+                    p.distinct(&(which.name(), compressed, &stream, seg, at, use_write));
+                    let h = Handle::new(stream.clone(), vec![], vec![]);
+                    h.with(|x| x.default_read = seg);
+                    let mut conn = Conn::new(which, &h, compressed, false);
+                    let mut results = vec![];
+                    let mut called = false;
+                    for _ in 0..expected.len() + 4 {
+                        if results.len() == at && !called {
+                            called = true;
+                            let isi = insim::insim::Isi { iname: "again".into(), ..Default::default() };
+                            let ok = if use_write {
+                                conn.write(&h, insim::Packet::Isi(isi)).is_ok()
+                            } else {
+                                match &mut conn {
+                                    Conn::Blocking(f) => f.handshake(isi).is_ok(),
+                                    Conn::Tokio(f) => {
+                                        let mut fut = Box::pin(f.handshake(isi, std::time::Duration::from_secs(30)));
+                                        matches!(poll_to_end(fut.as_mut(), 100_000), Some(Ok(())))
+                                    },
+                                }
+                            };
+                            if !ok {
+                                p.count("midway_call_failed", 1);
+                            }
+                        }
+                        let x = conn.read(&h);
+                        let end = matches!(x, ReadResult::Disconnected);
+                        if !end {
+                            results.push(x);
+                        } else {
+                            break;
+                        }
+                    }
+                    if results != expected {
+                        let k = results.iter().zip(expected.iter()).position(|(a, b)| a != b).unwrap_or(results.len().min(expected.len()));
+                        p.violation(
+                            format!("C05/{}/disturbed-by-{}", which.name(), if use_write { "write" } else { "handshake" }),
+                            format!(
+                                "{} {}: a {} issued after {at} results ({}-byte reads) changes what the following reads return: {} results instead of {}, first difference at #{k}: {} vs {}",
+                                which.name(),
+                                mode_name(compressed),
+                                if use_write { "write" } else { "handshake" },
+                                if seg == 0 { "whole-stream".to_string() } else { seg.to_string() },
+                                results.len(),
+                                expected.len(),
+                                results.get(k).map(crate::sess::short).unwrap_or_else(|| "<none>".into()),
+                                expected.get(k).map(crate::sess::short).unwrap_or_else(|| "<none>".into())
+                            ),
+                            json!({"impl": which.name(), "mode": mode_name(compressed), "stream": hex(&stream[..stream.len().min(512)]), "segment": seg, "call_after_results": at}),
+                        );
+                    }
+                }
+                p
+            })
+            .collect();
+        for p in parts {
+            ctx.merge(p);
+        }
+    }
     // ---- connections made by Builder::tcp over loopback: the peer's segmentation is the kernel's ---------------
     if !miri {
         use crate::realconn::builder_tcp_session;
